@@ -40,7 +40,7 @@ func ruleC01(c *Ctx, r *Report) {
 	sort.Strings(zn)
 	r.Analysed["zone_functions"] = zn
 
-	c01Dispatch(c, r, p, []string{"query", "filter", "update", "updates", "deletes", "q", "u", "documents", "pipeline", "ops", "arrayFilters"}, "C01-R1")
+	c01Dispatch(c, r, p, []string{"query", "filter", "update", "updates", "deletes", "q", "u", "c", "documents", "pipeline", "ops", "arrayFilters"}, "C01-R1")
 	c01Explain(c, r, p, "C01-R1")
 	c01Sinks(c, r, p)
 	c01Loops(c, r, p)
@@ -478,6 +478,9 @@ var zoneForms = map[string][]string{
 	"ops": {"array"},
 	// findAndModify / update: filters for the positional-filtered operator
 	"arrayFilters": {"array"},
+	// update statement logged on its own (WRITE "Slow query" lines carry the UpdateOpEntry
+	// {q, u, c, arrayFilters, multi, upsert} as attr.command): the constants document
+	"c": {"doc"},
 }
 
 func keysOf(m map[string]bool) []string {
